@@ -191,6 +191,25 @@ func c08Construct(r *fw.Rec, s dmref.Symbol) {
 		return
 	}
 	r.Tally("ecc_vectors_equal")
+	// a second call (another vector, possibly another size) must not disturb the first result:
+	// the codeword stream is handed to the placement step later, not consumed at once
+	{
+		syms := dmref.Symbols()
+		s2 := syms[rng.Intn(len(syms))]
+		if si2 := dmLibSymbol(s2); si2 != nil {
+			d2 := randCodewords(rng, s2.DataCW)
+			full2, err2 := dmenc.ErrorCorrection_EncodeECC200(d2, si2)
+			if err2 == nil && string(full2) != string(dmref.ECC(s2, d2)) && !(s2.Rows == s.Rows && s2.Cols == s.Cols) {
+				// (reported by its own case)
+				_ = full2
+			}
+		}
+		if string(full) != string(want) {
+			r.Violation("model-mismatch", "dm.ecc:result-changed-by-a-later-call", fmt.Sprintf("the codeword stream returned by ErrorCorrection_EncodeECC200 for %s changed when the function was called again for another vector", name), info)
+			return
+		}
+		r.Tally("ecc_result_stable_across_calls")
+	}
 	// placement
 	pl := dmenc.NewDefaultPlacement(full, s.MappingCols(), s.MappingRows())
 	pl.Place()
